@@ -89,6 +89,10 @@ const (
 	deletedBit = uint32(1 << 31)
 )
 
+// ErrLocationChanged is returned by UpdateIfBlock when the index has a
+// different location for the key than the expected one.
+var ErrLocationChanged = errors.New("index has a different location for key")
+
 // errRecordDeleted is returned when reading a record list that GC has marked
 // as deleted.
 var errRecordDeleted = errors.New("index record list is deleted")
@@ -627,7 +631,7 @@ func (idx *Index) update(key []byte, expected *types.Block, location types.Block
 		return fmt.Errorf("key to update not found in index")
 	}
 	if expected != nil && r.Block != *expected {
-		return fmt.Errorf("index has a different location for key")
+		return ErrLocationChanged
 	}
 	// Update key in position.
 	newData = records.PutKeys([]KeyPositionPair{{r.Key, location}}, r.Pos, r.NextPos())
